@@ -2,7 +2,7 @@
 (* TLC as enumerator and as judge for C19 (no behaviour specification: the   *)
 (* work is done while TLC evaluates the assumptions).                        *)
 (*                                                                           *)
-(* C19_MODE = "enum":  writes every request of FileServer!Requests and the   *)
+(* C19_MODE = "enum":  writes every request of FileServer!AllRequests(Methods) and the   *)
 (*   block tables of the block-wise clause to C19_OUT.                       *)
 (* C19_MODE = "judge": reads observations recorded from the real             *)
 (*   aiocoap.cli.fileserver.FileServer (C19_IN): histories of requests, each *)
@@ -18,10 +18,10 @@ EXTENDS FileServer, Json, IOUtils
 Mode == IOEnv.C19_MODE
 
 (* ------------------------------- enum ------------------------------------ *)
-BlockCases == {[len |-> L, szx |-> s, tbl |-> BlockTable(L, s)] : L \in BlockLens, s \in 0..6}
+BlockCases(lens) == {[len |-> L, szx |-> s, tbl |-> BlockTable(L, s)] : L \in lens, s \in 0..6}
 
 ASSUME Mode = "enum" =>
-         JsonSerialize(IOEnv.C19_OUT, [requests |-> Requests, blocks |-> BlockCases])
+         JsonSerialize(IOEnv.C19_OUT, [requests |-> AllRequests(Methods), blocks |-> BlockCases(BlockLens)])
 
 (* ------------------------------- judge ----------------------------------- *)
 In == IF Mode = "judge" THEN JsonDeserialize(IOEnv.C19_IN) ELSE [cases |-> << >>, blocks |-> << >>]
@@ -43,7 +43,8 @@ JudgeSteps(steps, i, fsU, fsG) ==
            mu == Match(s, pu, fsU)
            mg == Match(s, pg, fsG)
            t  == Target(s.u)
-       IN << [tk |-> t.k, tp |-> t.p, bad |-> Clauses(o), mu |-> mu, mg |-> mg,
+           bad == Clauses(o)
+       IN << [tk |-> t.k, tp |-> IF bad = {} THEN << >> ELSE t.p, bad |-> bad, mu |-> mu, mg |-> mg,
               pred |-> IF mu \/ mg THEN << >>
                        ELSE << [v |-> "guarded", resp |-> pg.resp, eff |-> pg.eff],
                                [v |-> "unguarded", resp |-> pu.resp, eff |-> pu.eff] >>] >>
